@@ -287,8 +287,20 @@ Splices(b, c) ==
     {Mut("splice", b, SubSeq(b.line, 1, i) \o SubSeq(c.line, j + 1, Len(c.line))) :
         i \in Spaces(b.line), j \in Spaces(c.line)}
 
+\* other authentication methods in the place of "password" (sshd prints the method there; the daemon handles
+\* password and publickey), also without the key part
+Methods == {"publickey", "keyboard-interactive/pam", "hostbased", "none", "gssapi-with-mic", "Password", "password:"}
+MethodSwaps ==
+    LET acc == AccPw(A0, H0, P0)
+        fl  == FailedPw("", A0, H0, P0)
+        fli == FailedPw("invalid user ", A0, H0, P0)
+    IN {Mut("method-swap", acc, "Accepted " \o m \o SubSeq(acc.line, 18, Len(acc.line))) : m \in Methods}
+       \cup {Mut("method-swap", fl, "Failed " \o m \o SubSeq(fl.line, 16, Len(fl.line))) : m \in Methods}
+       \cup {Mut("method-swap", fli, "Failed " \o m \o SubSeq(fli.line, 16, Len(fli.line))) : m \in Methods}
+
 VMutants ==
     UNION {Truncations(b) \cup KeywordChanges(b) \cup Duplications(b) : b \in Baseline}
+    \cup MethodSwaps
     \cup (IF Full THEN UNION {Splices(b, c) : b \in Baseline, c \in Baseline} ELSE
            UNION {Splices(b, c) : b \in {AccPw(A0, H0, P0), InvalidUser(A0, H0, P0), RootRefused(H0, P0)},
                                  c \in Baseline})
